@@ -447,7 +447,11 @@ def checkCase (j : Json) : Except String Verdict := do
               match vdHist.find? (·.1 == host) with
               | some (_, vd) =>
                 if clock > vd + 2 then
-                  v := v.mons ["C04", "C01"] "served_unchecked_beyond_validity" idx s!"last check or login + V = {vd}, served without any check at {clock}"
+                  -- during an outage episode this is also C05's business: grace lets a session through one due check at a time
+                  let ps := if (episode.find? (·.1 == host)).isSome then ["C04", "C01", "C05"] else ["C04", "C01"]
+                  -- … and under a group rule the group verdict is then older than the rule's re-check period allows (C11)
+                  let ps := if u.groups != [] && u.groups != ["*"] then ps ++ ["C11"] else ps
+                  v := v.mons ps "served_unchecked_beyond_validity" idx s!"last check or login + V = {vd}, served without any check at {clock}"
               | none => pure ()
       else if hk != "Proxy" && hk != "AuthenticateOnly" then pure ()
       else vdHist := vdHist.filter (·.1 != host)
@@ -496,6 +500,9 @@ def checkCase (j : Json) : Except String Verdict := do
             strD stt "sid" == strD csr "sid" && strD stt "uri" == strD csr "uri"
           let rd := getJ inp "ansRedeem"
           if !okFlow then v := v.mon "C06" "session_without_matching_flow" idx
+          -- C02: a session came out of a callback whose state (or CSRF cookie) does not even open under the proxy's secret
+          if !(boolD stt "opens") || !(boolD csr "opens") then
+            v := v.mon "C02" "unopenable_value_yields_no_data" idx s!"state opens: {boolD stt "opens"}, csrf cookie opens as a flow record: {boolD csr "opens"}"
           -- both were *sealed values as sealed*: a re-spelling of a sealed value (line breaks, padding) is another string
           if !(boolD stt "asSealed") || !(boolD csr "asSealed") then v := v.mon "C06" "session_from_respelled_value" idx
           if strD inp "errParam" != "" || strD inp "code" == "" || strD rd "kind" != "ok" || strD rd "email" == "" then
